@@ -16,6 +16,8 @@ structure Table (α : Type) where
 deriving Repr, DecidableEq
 
 structure EmFile (β : Type) where
+  /-- EM data-type code of the header (5 = float32, 9 = float64) -/
+  dtype : Nat
   dimX : Nat
   dimY : Nat
   dimZ : Nat
@@ -30,10 +32,12 @@ def cell (d : α) (cols : List Field) (r : List α) (f : Field) : α := ((cols.z
 /-- `check_df_correct_format`: `sorted(cols) == sorted(motl_columns)` -/
 def accepted (cols : List Field) : Bool := cols.isPerm genColumns
 
-/-- `EmMotl.write_out` after the repair: select the canonical columns by name, `fillna(0)` and
-`astype(np.single)` (both inside `conv`), reshape `(1, N, 20)`; emfile stores x fastest. -/
+/-- the DOCUMENTED writer (reference semantics, independent of what the source says today apart from the column
+list): select the canonical columns by name, `fillna(0)` and `astype(np.single)` (both inside `conv`), reshape
+`(1, N, 20)`; emfile stores x fastest. What the source's writer does today is `writeGen` below; `Props/C01`
+proves the two equal from the regenerated facts. -/
 def writeEm (conv : α → β) (d : α) (t : Table α) : EmFile β :=
-  { dimX := genColumns.length, dimY := t.rows.length, dimZ := 1,
+  { dtype := 5, dimX := genColumns.length, dimY := t.rows.length, dimZ := 1,
     data := t.rows.flatMap (fun r => genColumns.map (fun f => conv (cell d t.cols r f))) }
 
 /-- the cell conversion of the writer: `fillna(0.0)` then `astype(np.single)` -/
@@ -41,7 +45,7 @@ def conv (isNaN : α → Bool) (r32 : α → β) (zero : α) (v : α) : β := if
 
 /-- the code as it was before the repair: `self.df.fillna(0).to_numpy()` — table column order -/
 def writeEmAsIs (conv : α → β) (t : Table α) : EmFile β :=
-  { dimX := t.cols.length, dimY := t.rows.length, dimZ := 1,
+  { dtype := 5, dimX := t.cols.length, dimY := t.rows.length, dimZ := 1,
     data := t.rows.flatMap (fun r => r.map conv) }
 
 def rowsOf (n : Nat) : Nat → List β → List (List β)
@@ -54,6 +58,59 @@ def readEm (f : EmFile β) : Option (Table β) :=
   if f.dimY = 0 then none
   else if f.dimX ≠ Gen.C01.readExpectedColumns then none
   else some { cols := genColumns, rows := rowsOf f.dimX f.dimY f.data }
+
+/-! ### the writer as the source states it (a function of the translated facts) -/
+
+/-- a number as emfile stores it: numpy dtype `float32` (EM data-type code 5) or `float64` (code 9) -/
+inductive Stored
+  | f32 (bits : UInt32)
+  | f64 (bits : UInt64)
+deriving DecidableEq, Repr
+
+/-- the number operations the writer uses, abstract in the number type `α` of the table
+(the driver instantiates them with IEEE binary64: `Float.isNaN`, `Float.ofInt`, `Float.toFloat32`) -/
+structure NumOps (α : Type) where
+  isNaN : α → Bool
+  /-- the value of an integer literal of the source (the argument of `fillna`) -/
+  ofInt : Int → α
+  /-- `astype(np.single)`, as the stored bit pattern -/
+  bits32 : α → UInt32
+  /-- the float64 bit pattern: what is stored when nothing casts -/
+  bits64 : α → UInt64
+
+/-- what lands in the array given to `emfile.write`: cast to single precision iff the source casts -/
+def NumOps.store (o : NumOps α) (casts : Bool) (v : α) : Stored :=
+  if casts then .f32 (o.bits32 v) else .f64 (o.bits64 v)
+
+/-- `.fillna(k)` when the source has one (`fill = some k`), nothing otherwise -/
+def fillCell (o : NumOps α) (fill : Option Int) (v : α) : α :=
+  match fill with
+  | some k => if o.isNaN v then o.ofInt k else v
+  | none => v
+
+/-- `EmMotl.write_out` as a function of the three facts the translator reads off the source:
+`sel`   — the table is indexed with `[Motl.motl_columns]` before `to_numpy()` (otherwise cells go out in table order),
+`fill`  — the literal of `.fillna(·)` on what is written (`none`: no `fillna`),
+`casts` — the array is cast with `.astype(np.single)` (otherwise it stays float64 and emfile writes data-type 9). -/
+def writeSrc (sel : Bool) (fill : Option Int) (casts : Bool) (o : NumOps α) (t : Table α) : EmFile Stored :=
+  { dtype := if casts then 5 else 9,
+    dimX := if sel then genColumns.length else t.cols.length,
+    dimY := t.rows.length, dimZ := 1,
+    data := t.rows.flatMap (fun r =>
+      (if sel then genColumns.map (fun f => cell (o.ofInt 0) t.cols r f) else r).map
+        (fun v => o.store casts (fillCell o fill v))) }
+
+/-- the writer of the source tree the translator ran on (`Gen/C01.lean` is regenerated on every check) -/
+def writeGen (o : NumOps α) (t : Table α) : EmFile Stored :=
+  writeSrc Gen.C01.writeSelectsCanonical Gen.C01.writeFill Gen.C01.writeCastsSingle o t
+
+/-- the cell conversion the property asks for, on stored numbers: missing → 0, everything else → single precision -/
+def specCell (o : NumOps α) (v : α) : Stored := conv o.isNaN (fun x => Stored.f32 (o.bits32 x)) (o.ofInt 0) v
+
+/-- a toy number type for the `decide`d witnesses of `Props/C01` (`none` = missing value) -/
+def toyOps : NumOps (Option Nat) :=
+  { isNaN := Option.isNone, ofInt := fun k => some k.toNat,
+    bits32 := fun v => UInt32.ofNat (v.getD 99), bits64 := fun v => UInt64.ofNat (v.getD 99) }
 
 /-- what a user sees after loading: each particle as its named fields -/
 def particles (d : β) (t : Table β) : List (Particle β) := t.rows.map (fun r => Particle.ofFn (cell d t.cols r))
